@@ -288,7 +288,7 @@ theorem key_step_cases {e e' : Editor D L} {ev : KeyEvent} {b : KB} (h : e.proce
           ∃ ch, DirectChar ev ch ∧ e'.shared.commitBuf = [ch]) ∨
        (b = .commit ∧ e.state = .entering ∧ ev.code = KC.enter ∧ e.shared.com.isEmpty = false ∧
           Shared.commit env (preamble e.shared) = .ok sh ∧ e'.shared = flush env sh) ∨
-       (b = .commit ∧ st = .entering ∧ sh.last = .absorb ∧ sh.commitBuf = [] ∧
+       (b = .commit ∧ (st = .entering ∨ st = .enteringSyllable) ∧ sh.last = .absorb ∧ sh.commitBuf = [] ∧
           sh.options.autoCommitThreshold < sh.com.len ∧
           ∃ sh2, Shared.tryAutoCommit env sh = .ok sh2 ∧ e'.shared = flush env sh2)) := by
   rw [processKey_eq] at h
@@ -382,7 +382,7 @@ theorem commit_string_iff_result (hH : ConvHeadText env) {e e' : Editor D L} {ev
 theorem key_auto_commit (hT : ConvTiles env) {e e' : Editor D L} {ev : KeyEvent}
     (h : e.processKey env ev = .ok (e', .commit))
     (hnw : ¬ (e.state = .entering ∧ ev.code = KC.enter)) (hne : e.shared.com.isEmpty = false) :
-    ∃ sh, dispatch env e ev = .ok (sh, .entering) ∧ sh.last = .absorb ∧
+    ∃ sh st, dispatch env e ev = .ok (sh, st) ∧ (st = .entering ∨ st = .enteringSyllable) ∧ sh.last = .absorb ∧
       sh.options.autoCommitThreshold < sh.com.len ∧
       (∃ rest, Shared.display env sh = .ok (e'.shared.commitBuf ++ rest)) ∧
       (∃ n, n ≤ sh.com.len ∧ e'.shared.com.symbols = sh.com.symbols.drop n ∧
@@ -394,14 +394,13 @@ theorem key_auto_commit (hT : ConvTiles env) {e e' : Editor D L} {ev : KeyEvent}
   · exact absurd rfl c
   · rw [he] at hne; cases hne
   · exact absurd ⟨hs, hk⟩ hnw
-  · subst hst
-    obtain ⟨f1, f2, _⟩ := flush_fields env sh2
+  · obtain ⟨f1, f2, _⟩ := flush_fields env sh2
     obtain ⟨c1, c2, c3⟩ := auto_commit_conserves env hT hac hlt
     obtain ⟨rest, hr⟩ := auto_commit_prefix_of_display env hac hlt
     obtain ⟨ivs, k, hc, _, _, hb, hle, hsym, _⟩ := auto_commit_prefix env hac hlt
     obtain ⟨paths, hp, hmem⟩ := conversion_mem env hc
     have ht : Tiles 0 sh.com.len ivs := hT _ _ _ _ hp _ hmem
-    refine ⟨sh, hd, hl, hlt, ⟨rest, by rw [hsh, f1]; exact hr⟩, ⟨sumLen (ivs.take k), hle, ?_, ?_⟩, ?_, ?_⟩
+    refine ⟨sh, st, hd, hst, hl, hlt, ⟨rest, by rw [hsh, f1]; exact hr⟩, ⟨sumLen (ivs.take k), hle, ?_, ?_⟩, ?_, ?_⟩
     · rw [hsh, f2]; exact hsym
     · rw [hsh, f1, hb]; exact (ht.take k).1
     · rw [hsh, f1, f2]; exact c1
@@ -433,7 +432,7 @@ theorem api_select {e e' : Editor D L} {n : Nat} {r : Bool} (h : e.select env n 
       obtain ⟨sh1, st⟩ := p
       simp only at h hap
       -- the overflow path runs only once the list has closed (`self.state.is_entering() &&`, C01's fix)
-      by_cases hl0 : (st == St.entering && sh1.last == KB.absorb) = true
+      by_cases hl0 : ((st == St.entering || st == St.enteringSyllable) && sh1.last == KB.absorb) = true
       · have hl : sh1.last = .absorb := by
           have := (Bool.and_eq_true _ _).mp hl0
           exact eq_of_beq this.2
